@@ -50,9 +50,9 @@ def sh(*a, **k): return subprocess.run(a, capture_output=True, text=True, **k)
 wt='/tmp/mkvariants_wt'
 sh('git','-C','/repo','worktree','remove','--force',wt)
 assert sh('git','-C','/repo','worktree','add','--detach',wt,'HEAD').returncode==0
-# reverts that no longer compile as plain `git revert` (a later fix builds on the repaired code): D15 and D28 are kept as hand-made
+# reverts that no longer compile or apply as plain `git revert` (a later fix builds on the repaired code): D15, D28, D2 (over D43) and D32 (over D41) are kept as hand-made
 # patches of the same names, D1 and D12 have no variant; none is regenerated
-HAND={'D1','D12','D15','D28'}
+HAND={'D1','D12','D15','D28','D2','D32'}
 try:
     log=sh('git','-C',wt,'log','--format=%h %s').stdout.strip().split('\n')
     n=0
